@@ -43,6 +43,7 @@ type Contract struct {
 	HasMod     bool
 	Havocs     []string
 	Writes     []string // parameters whose pointee is overwritten (havoc at that reference only)
+	ParElem    []*Clause // parallel-append discipline on a captured slice: Callee=var, Label=element name
 	File       string
 	Line       int
 	Assumed    bool
@@ -139,7 +140,7 @@ func (db *SpecDB) loadFile(path string, assumed bool) error {
 	}
 	// join continuation lines: a line whose first word is not a keyword continues the previous one
 	kw := map[string]bool{"func": true, "requires": true, "ensures": true, "modifies": true, "havocs": true, "loop": true, "decreases": true,
-		"assert_at": true, "assert_after": true, "writes": true, "crash_invariant": true, "flags": true, "ghost": true, "define": true, "ufunc": true, "axiom": true, "lemma": true, "opt": true}
+		"assert_at": true, "assert_after": true, "writes": true, "parelem": true, "crash_invariant": true, "flags": true, "ghost": true, "define": true, "ufunc": true, "axiom": true, "lemma": true, "opt": true}
 	var joined []rawLine
 	for _, l := range lines {
 		w := strings.Fields(l.text)
@@ -300,6 +301,20 @@ func (db *SpecDB) loadFile(path string, assumed bool) error {
 				for _, f := range strings.FieldsFunc(rest, func(r rune) bool { return r == ',' || r == ' ' }) {
 					cur.Havocs = append(cur.Havocs, f)
 				}
+			case "parelem":
+				// parelem <captured slice var> <elem name>: predicate(host param, elem)
+				if len(w) < 4 {
+					return fail("parelem <var> <elem>: expr")
+				}
+				i := strings.Index(rest, ":")
+				if i < 0 {
+					return fail("parelem <var> <elem>: expr")
+				}
+				e, err := parseExpr(strings.TrimSpace(rest[i+1:]))
+				if err != nil {
+					return fail(err.Error())
+				}
+				cur.ParElem = append(cur.ParElem, &Clause{Kind: "parelem", Callee: w[1], Label: strings.TrimSuffix(w[2], ":"), Text: rest, Expr: e, File: path, Line: l.line})
 			case "writes":
 				for _, f := range strings.FieldsFunc(rest, func(r rune) bool { return r == ',' || r == ' ' }) {
 					cur.Writes = append(cur.Writes, f)
